@@ -3,13 +3,20 @@
 package main
 
 import (
+	"bufio"
+	"bytes"
 	"encoding/json"
 	"errors"
 	"fmt"
 	"io"
 	"math/rand"
 	"net/http"
+	"os"
+	"os/exec"
+	"runtime/debug"
 	"strings"
+	"sync"
+	"time"
 
 	"github.com/go-openapi/runtime"
 )
@@ -19,6 +26,15 @@ import (
 // (runtime.HasBody(req), req.Body.Read, req.Body.Close). The scripted stream implements exactly
 // StreamScripts.sread; the outputs of every call and the stream's Close counter are compared
 // step by step with the model (Peek.run) and judged by PeekSpec.history_ok.
+//
+// Pair cases (field B set): TWO requests, each with its own settings and scripted stream, and one history whose
+// calls carry the index of the request they are made on, interleaved in any order - in particular calls through a
+// retained A.Body (late Read, second Close) after request B has been probed. Compared with Peek.run2 and judged by
+// PeekSpec.pair_ok: each request observes exactly what it observes alone.
+//
+// The calls are executed in a worker process (the same binary, VERIF_C17_WORKER=1) that reports every output as it is
+// made: a change that lets the library recurse without end (fatal stack overflow, not a recoverable panic) or hang
+// kills only the worker; the call under way is then reported as a panic of that history, and a new worker is started.
 
 type c17Step struct {
 	C Bs  `json:"c"`
@@ -28,6 +44,16 @@ type c17Step struct {
 type c17Op struct {
 	K string `json:"k"` // has | read | close
 	N int    `json:"n,omitempty"`
+	R int    `json:"r,omitempty"` // pair cases: 0 the call is made on request A, 1 on request B
+}
+
+// c17Req is the second request of a pair case.
+type c17Req struct {
+	CL    int64     `json:"cl"`
+	Hdr   Bs        `json:"hdr"`
+	Nil   bool      `json:"nil,omitempty"`
+	CErr  int       `json:"cerr,omitempty"`
+	Steps []c17Step `json:"steps"`
 }
 
 type c17In struct {
@@ -38,6 +64,7 @@ type c17In struct {
 	Steps []c17Step `json:"steps"`
 	Ops   []c17Op   `json:"ops"`
 	Shape string    `json:"shape,omitempty"` // how the generator chunked the body (for the report only)
+	B     *c17Req   `json:"b,omitempty"`     // pair cases: the second request
 }
 
 type c17Out struct {
@@ -49,8 +76,9 @@ type c17Out struct {
 }
 
 type c17Obs struct {
-	Outs   []c17Out `json:"outs"`
-	Closes int      `json:"closes"`
+	Outs    []c17Out `json:"outs"`
+	Closes  int      `json:"closes"`
+	ClosesB int      `json:"closes_b,omitempty"`
 }
 
 type c17Err struct{ n int }
@@ -146,7 +174,13 @@ func c17CoqErr(class string) string {
 
 type c17 struct{}
 
-func init() { register(c17{}) }
+func init() {
+	if os.Getenv("VERIF_C17_WORKER") == "1" {
+		c17WorkerMain()
+		os.Exit(0)
+	}
+	register(c17{})
+}
 
 func (c17) ID() string        { return "C17" }
 func (c17) CoqModule() string { return "Check_C17" }
@@ -154,8 +188,10 @@ func (c17) Rule() string {
 	return "requests: ContentLength in {-1,0,positive} x Content-Length header absent/0/other x nil or scripted body; bodies 0..~10 KB " +
 		"(sizes around the 4096-byte buffer), chunked 1-byte / random / buffer-boundary / single, with zero-length reads (runs up to 101), " +
 		"terminal EOF separate, data+EOF, none, or a scripted error after any byte (data+error or separate); histories of 1..14 calls of " +
-		"HasBody, Read k (k in 0,1,small,4095,4096,4097,large) and Close in any order incl. probes after reads, reads after close, double close. " +
-		"Non-trivial: a non-nil body, at least one probing HasBody (no positive length, no header) and at least one Read or Close after it."
+		"HasBody, Read k (k in 0,1,small,4095,4096,4097,large) and Close in any order incl. probes after reads, reads after close, double close; " +
+		"pair cases (about 1 in 5 generated, 200 enumerated): two requests with their own scripted streams and one history of 4..18 calls tagged with the request they are made on, " +
+		"interleaved at random or in the order probe A / close A / probe B / late Read or Close through the retained A.Body / drain B. " +
+		"Non-trivial: a non-nil body, at least one probing HasBody (no positive length, no header) and at least one Read or Close after it (pair cases: on either request)."
 }
 
 func (c17) Decode(raw json.RawMessage) (any, error) {
@@ -222,6 +258,50 @@ func (c17) Enumerate(tier string) []any {
 		out = append(out, c17In{CL: 0, Steps: steps, Ops: ops("h h r1 r1 r1"), Shape: "stall"})
 		out = append(out, c17In{CL: 0, Steps: steps, Ops: ops("r1 h r1 r1"), Shape: "stall"})
 	}
+	// two requests, interleaved calls: every pair of stream shapes x histories in which a body is used after the other
+	// request has been probed (A.. calls on the first request, B.. on the second)
+	pops := func(s string) []c17Op {
+		var o []c17Op
+		for _, f := range strings.Fields(s) {
+			one := ops(f[1:])[0]
+			if f[0] == 'B' {
+				one.R = 1
+			}
+			o = append(o, one)
+		}
+		return o
+	}
+	shapes := func(b string) [][]c17Step {
+		var bytewise []c17Step
+		for i := 0; i < len(b); i++ {
+			bytewise = append(bytewise, c17Step{C: Bs(b[i : i+1])})
+		}
+		return [][]c17Step{
+			{{C: Bs(b)}, {T: 1}},
+			append(bytewise, c17Step{T: 1}),
+			{{C: Bs(b), T: 1}},
+			{{T: 1}},
+			{{C: Bs(b[:5])}, {C: Bs(b[5:]), T: 3}},
+		}
+	}
+	phist := []string{
+		"Ah Ac Bh Ar5 Ac Br100 Br1 Bc",
+		"Ah Ar3 Ac Bh Br3 Ar3 Bc Ar1 Ac Br1",
+		"Ah Bh Ac Bc Ar1 Br1 Ah Bh",
+		"Bh Br2 Bc Ah Bc Ar4 Br4 Ar100 Ar1 Ac Ac",
+		"Ah Bh Ar100 Br100 Ar1 Br1 Ac Bc",
+		"Ah Ac Bh Bc Ar1 Br1 Ac Bc",
+		"Ah Ac Bh Ah Br100 Ar1 Br1",
+		"Ah Ah Ac Bh Bh Ar2 Br2 Ac Br100",
+	}
+	for ai, sa := range shapes("hello, world") {
+		for bi, sb := range shapes("OTHER REQUEST") {
+			for hi, h := range phist {
+				out = append(out, c17In{CL: []int64{-1, 0}[(ai+hi)%2], Steps: sa, CErr: []int{0, 0, 2}[(ai+bi+hi)%3],
+					B: &c17Req{CL: []int64{-1, 0}[(bi+hi/2)%2], Steps: sb}, Ops: pops(h), Shape: "pair-enum"})
+			}
+		}
+	}
 	// nil body and the length fast paths
 	for _, cl := range []int64{-1, 0, 7} {
 		for _, hdr := range []string{"", "0", "7"} {
@@ -238,12 +318,12 @@ func (c17) Enumerate(tier string) []any {
 var c17Sizes = []int{0, 0, 1, 2, 3, 7, 16, 100, 511, 1000, 4095, 4096, 4097, 5000, 8191, 8192, 8193, 10000}
 var c17Reads = []int{0, 1, 1, 2, 3, 5, 16, 100, 512, 4095, 4096, 4097, 5000, 9000, 20000}
 
-func c17Body(r *rand.Rand, n int) []byte {
+func c17Body(r *rand.Rand, n int, salt int) []byte {
 	b := make([]byte, n)
 	switch r.Intn(3) {
 	case 0: // position-revealing pattern: any reordering or duplication changes it
 		for i := range b {
-			b[i] = byte((i*7 + i/251) % 256)
+			b[i] = byte((i*7 + i/251 + salt) % 256)
 		}
 	default:
 		r.Read(b)
@@ -251,7 +331,8 @@ func c17Body(r *rand.Rand, n int) []byte {
 	return b
 }
 
-func (c17) Gen(r *rand.Rand, tier string, i int) any {
+// c17GenRequest: settings and scripted stream of one request (salt varies the position pattern of the body).
+func c17GenRequest(r *rand.Rand, tier string, salt int) c17In {
 	in := c17In{}
 	switch r.Intn(8) {
 	case 0:
@@ -281,7 +362,7 @@ func (c17) Gen(r *rand.Rand, tier string, i int) any {
 	if tier == "quick" && size > 5000 && r.Intn(3) != 0 {
 		size = r.Intn(5000)
 	}
-	body := c17Body(r, size)
+	body := c17Body(r, size, salt)
 	// terminal
 	term := 1
 	cut := len(body)
@@ -348,6 +429,14 @@ func (c17) Gen(r *rand.Rand, tier string, i int) any {
 		steps = append(steps, c17Step{C: "ghost"})
 	}
 	in.Steps, in.Shape = steps, shape
+	return in
+}
+
+func (c17) Gen(r *rand.Rand, tier string, i int) any {
+	if i%5 == 4 {
+		return c17GenPair(r, tier)
+	}
+	in := c17GenRequest(r, tier, 0)
 	// history
 	n := 1 + r.Intn(14)
 	closeP := 8
@@ -376,22 +465,123 @@ func (c17) Gen(r *rand.Rand, tier string, i int) any {
 	return in
 }
 
+func c17GenRead(r *rand.Rand) int {
+	k := c17Reads[r.Intn(len(c17Reads))]
+	if r.Intn(4) == 0 {
+		k = 1 + r.Intn(40)
+	}
+	return k
+}
+
+// c17GenPair: two requests and an interleaved history. Half of the histories follow the order in which a recycled or shared
+// wrapper would show: probe A, (read A), close A, probe B, then late calls through the retained A.Body mixed with reads of
+// B; the other half interleave the calls at random.
+func c17GenPair(r *rand.Rand, tier string) c17In {
+	in := c17GenRequest(r, tier, 0)
+	b := c17GenRequest(r, tier, 101)
+	if r.Intn(4) != 0 { // mostly: both requests are probed for real
+		in.CL, in.Hdr, in.Nil = []int64{-1, 0}[r.Intn(2)], "", false
+		b.CL, b.Hdr, b.Nil = []int64{-1, 0}[r.Intn(2)], "", false
+	}
+	in.B = &c17Req{CL: b.CL, Hdr: b.Hdr, Nil: b.Nil, CErr: b.CErr, Steps: b.Steps}
+	in.Shape = "pair:" + in.Shape + "+" + b.Shape
+	op := func(k string, req int) c17Op {
+		o := c17Op{K: k, R: req}
+		if k == "read" {
+			o.N = c17GenRead(r)
+		}
+		return o
+	}
+	if r.Intn(2) == 0 {
+		first := r.Intn(2) // the request that is closed early
+		second := 1 - first
+		in.Ops = append(in.Ops, op("has", first))
+		if r.Intn(2) == 0 {
+			in.Ops = append(in.Ops, op("read", first))
+		}
+		if r.Intn(4) == 0 {
+			in.Ops = append(in.Ops, op("has", second), op("close", first))
+		} else {
+			in.Ops = append(in.Ops, op("close", first), op("has", second))
+		}
+		for j, n := 0, 2+r.Intn(8); j < n; j++ {
+			switch x := r.Intn(10); {
+			case x < 3:
+				in.Ops = append(in.Ops, op("read", first))
+			case x < 5:
+				in.Ops = append(in.Ops, op("close", first))
+			case x < 8:
+				in.Ops = append(in.Ops, op("read", second))
+			case x < 9:
+				in.Ops = append(in.Ops, op("has", []int{first, second}[r.Intn(2)]))
+			default:
+				in.Ops = append(in.Ops, op("close", second))
+			}
+		}
+	} else {
+		for j, n := 0, 4+r.Intn(12); j < n; j++ {
+			req := r.Intn(2)
+			switch x := r.Intn(10); {
+			case x < 3 || j < 2:
+				in.Ops = append(in.Ops, op("has", req))
+			case x < 8:
+				in.Ops = append(in.Ops, op("read", req))
+			default:
+				in.Ops = append(in.Ops, op("close", req))
+			}
+		}
+	}
+	if r.Intn(2) == 0 { // drain both, so that what is left of each stream and its terminal condition are observed
+		for j := 0; j < 3; j++ {
+			in.Ops = append(in.Ops, c17Op{K: "read", N: 20000, R: 1}, c17Op{K: "read", N: 20000, R: 0})
+		}
+	}
+	return in
+}
+
 func (c17) Run(inAny any) any {
 	in := inAny.(c17In)
-	obs := c17Obs{}
-	req := &http.Request{Method: "POST", Header: http.Header{}, ContentLength: in.CL}
-	if in.Hdr != "" {
-		req.Header.Set("Content-Length", string(in.Hdr))
+	if os.Getenv("VERIF_C17_INPROC") == "1" {
+		return c17RunLocal(in, nil)
 	}
-	var stream *c17Stream
-	if !in.Nil {
-		steps := make([]c17Step, len(in.Steps))
-		copy(steps, in.Steps)
-		stream = &c17Stream{steps: steps, cerr: c17Term(in.CErr)}
-		req.Body = stream
+	obs, err := c17RunIsolated(in)
+	if err != nil { // no worker could be started: run in this process
+		return c17RunLocal(in, nil)
+	}
+	return obs
+}
+
+func c17NewRequest(cl int64, hdr Bs, isNil bool, cerr int, steps []c17Step) (*http.Request, *c17Stream) {
+	req := &http.Request{Method: "POST", Header: http.Header{}, ContentLength: cl}
+	if hdr != "" {
+		req.Header.Set("Content-Length", string(hdr))
+	}
+	if isNil {
+		return req, nil
+	}
+	cp := make([]c17Step, len(steps))
+	copy(cp, steps)
+	stream := &c17Stream{steps: cp, cerr: c17Term(cerr)}
+	req.Body = stream
+	return req, stream
+}
+
+// c17RunLocal executes the history in this process; emit (when not nil) is told every output as soon as it exists.
+func c17RunLocal(in c17In, emit func(c17Out)) c17Obs {
+	obs := c17Obs{}
+	reqs := make([]*http.Request, 1, 2)
+	streams := make([]*c17Stream, 1, 2)
+	reqs[0], streams[0] = c17NewRequest(in.CL, in.Hdr, in.Nil, in.CErr, in.Steps)
+	if in.B != nil {
+		rb, sb := c17NewRequest(in.B.CL, in.B.Hdr, in.B.Nil, in.B.CErr, in.B.Steps)
+		reqs, streams = append(reqs, rb), append(streams, sb)
 	}
 	for _, op := range in.Ops {
 		var o c17Out
+		req := reqs[0]
+		if op.R == 1 && len(reqs) > 1 {
+			req = reqs[1]
+		}
 		panicked, msg := recoverTo(func() {
 			switch op.K {
 			case "has":
@@ -420,15 +610,192 @@ func (c17) Run(inAny any) any {
 			}
 		})
 		if panicked {
-			obs.Outs = append(obs.Outs, c17Out{K: "panic", P: msg})
-			break
+			o = c17Out{K: "panic", P: msg}
 		}
 		obs.Outs = append(obs.Outs, o)
+		if emit != nil {
+			emit(o)
+		}
+		if panicked {
+			break
+		}
 	}
-	if stream != nil {
-		obs.Closes = stream.closes
+	if streams[0] != nil {
+		obs.Closes = streams[0].closes
+	}
+	if len(streams) > 1 && streams[1] != nil {
+		obs.ClosesB = streams[1].closes
 	}
 	return obs
+}
+
+// ---------- the worker process ----------
+
+// c17WorkerMain: one input per line on stdin; per call one line "o <output>", then "d <observation>" on stdout.
+func c17WorkerMain() {
+	debug.SetMaxStack(8 << 20) // an endless recursion ends quickly (the deepest legitimate nesting is one wrapper per probe)
+	rd := bufio.NewReaderSize(os.Stdin, 1<<20)
+	wr := bufio.NewWriterSize(os.Stdout, 1<<16)
+	for {
+		line, err := rd.ReadBytes('\n')
+		if len(bytes.TrimSpace(line)) > 0 {
+			var in c17In
+			if e := json.Unmarshal(line, &in); e != nil {
+				fmt.Fprintf(wr, "e %s\n", strings.ReplaceAll(e.Error(), "\n", " "))
+				wr.Flush()
+			} else {
+				obs := c17RunLocal(in, func(o c17Out) {
+					b, _ := json.Marshal(o)
+					wr.WriteString("o ")
+					wr.Write(b)
+					wr.WriteByte('\n')
+					wr.Flush() // the parent must know how far the history got if the next call kills the process
+				})
+				obs.Outs = nil
+				b, _ := json.Marshal(obs)
+				wr.WriteString("d ")
+				wr.Write(b)
+				wr.WriteByte('\n')
+				wr.Flush()
+			}
+		}
+		if err != nil {
+			return
+		}
+	}
+}
+
+type c17Tail struct {
+	mu  sync.Mutex
+	buf []byte
+}
+
+func (t *c17Tail) Write(p []byte) (int, error) {
+	t.mu.Lock()
+	if room := 600 - len(t.buf); room > 0 { // the head of the report says what happened
+		if len(p) < room {
+			room = len(p)
+		}
+		t.buf = append(t.buf, p[:room]...)
+	}
+	t.mu.Unlock()
+	return len(p), nil
+}
+
+func (t *c17Tail) String() string {
+	t.mu.Lock()
+	defer t.mu.Unlock()
+	return strings.Join(strings.Fields(string(t.buf)), " ")
+}
+
+type c17Worker struct {
+	cmd    *exec.Cmd
+	stdin  io.WriteCloser
+	lines  chan string
+	stderr *c17Tail
+}
+
+var c17TheWorker *c17Worker
+
+const c17CallTimeout = 30 * time.Second
+
+func c17StartWorker() (*c17Worker, error) {
+	exe, err := os.Executable()
+	if err != nil {
+		return nil, err
+	}
+	cmd := exec.Command(exe)
+	cmd.Env = append(os.Environ(), "VERIF_C17_WORKER=1")
+	w := &c17Worker{cmd: cmd, lines: make(chan string, 64), stderr: &c17Tail{}}
+	cmd.Stderr = w.stderr
+	if w.stdin, err = cmd.StdinPipe(); err != nil {
+		return nil, err
+	}
+	out, err := cmd.StdoutPipe()
+	if err != nil {
+		return nil, err
+	}
+	if err := cmd.Start(); err != nil {
+		return nil, err
+	}
+	go func() {
+		rd := bufio.NewReaderSize(out, 1<<20)
+		for {
+			line, err := rd.ReadString('\n')
+			if line != "" {
+				w.lines <- strings.TrimRight(line, "\n")
+			}
+			if err != nil {
+				close(w.lines)
+				return
+			}
+		}
+	}()
+	return w, nil
+}
+
+func (w *c17Worker) kill() {
+	_ = w.stdin.Close()
+	_ = w.cmd.Process.Kill()
+	_ = w.cmd.Wait()
+}
+
+// c17RunIsolated runs the history in the worker process. An error means that no worker could be started.
+func c17RunIsolated(in c17In) (c17Obs, error) {
+	if c17TheWorker == nil {
+		w, err := c17StartWorker()
+		if err != nil {
+			return c17Obs{}, err
+		}
+		c17TheWorker = w
+	}
+	w := c17TheWorker
+	line, err := json.Marshal(in)
+	if err != nil {
+		return c17Obs{}, err
+	}
+	var obs c17Obs
+	died := func(why string) (c17Obs, error) {
+		w.kill()
+		c17TheWorker = nil
+		msg := why
+		if t := w.stderr.String(); t != "" {
+			msg += ": " + t
+		}
+		obs.Outs = append(obs.Outs, c17Out{K: "panic", P: msg})
+		return obs, nil
+	}
+	if _, err := w.stdin.Write(append(line, '\n')); err != nil {
+		return died("the worker process does not accept the case")
+	}
+	timer := time.NewTimer(c17CallTimeout)
+	defer timer.Stop()
+	for {
+		select {
+		case l, ok := <-w.lines:
+			switch {
+			case !ok:
+				return died("the process died during the call (not a recoverable panic)")
+			case strings.HasPrefix(l, "o "):
+				var o c17Out
+				if err := json.Unmarshal([]byte(l[2:]), &o); err != nil {
+					return died("unreadable output of the worker process")
+				}
+				obs.Outs = append(obs.Outs, o)
+			case strings.HasPrefix(l, "d "):
+				var fin c17Obs
+				if err := json.Unmarshal([]byte(l[2:]), &fin); err != nil {
+					return died("unreadable output of the worker process")
+				}
+				obs.Closes, obs.ClosesB = fin.Closes, fin.ClosesB
+				return obs, nil
+			default:
+				return died("unexpected output of the worker process: " + l)
+			}
+		case <-timer.C:
+			return died("the call did not return within " + c17CallTimeout.String())
+		}
+	}
 }
 
 func c17CoqNat(n int) string {
@@ -440,21 +807,24 @@ func c17CoqNat(n int) string {
 
 func (c17) Coq(inAny any, obsAny any) string {
 	in, obs := inAny.(c17In), obsAny.(c17Obs)
-	steps := coqList(in.Steps, func(s c17Step) string {
-		t := "None"
-		switch {
-		case s.T == 1:
-			t = "(Some EOF)"
-		case s.T >= 2:
-			t = fmt.Sprintf("(Some (EScript %d))", s.T-2)
-		}
-		return coqPair(coqBytes(string(s.C)), t)
-	})
+	stepsOf := func(steps []c17Step) string {
+		return coqList(steps, func(s c17Step) string {
+			t := "None"
+			switch {
+			case s.T == 1:
+				t = "(Some EOF)"
+			case s.T >= 2:
+				t = fmt.Sprintf("(Some (EScript %d))", s.T-2)
+			}
+			return coqPair(coqBytes(string(s.C)), t)
+		})
+	}
+	steps := stepsOf(in.Steps)
 	ops := in.Ops
 	if len(obs.Outs) < len(ops) { // a panic ended the history: judge what was executed
 		ops = ops[:len(obs.Outs)]
 	}
-	opsT := coqList(ops, func(o c17Op) string {
+	opT := func(o c17Op) string {
 		switch o.K {
 		case "has":
 			return "OpHas"
@@ -463,7 +833,8 @@ func (c17) Coq(inAny any, obsAny any) string {
 		default:
 			return "OpRead " + c17CoqNat(o.N)
 		}
-	})
+	}
+	opsT := coqList(ops, opT)
 	outsT := coqList(obs.Outs, func(o c17Out) string {
 		switch o.K {
 		case "has":
@@ -478,9 +849,19 @@ func (c17) Coq(inAny any, obsAny any) string {
 			return "OPanic"
 		}
 	})
-	cerr := "None"
-	if in.CErr >= 2 {
-		cerr = fmt.Sprintf("(Some (EScript %d))", in.CErr-2)
+	cerrOf := func(n int) string {
+		if n >= 2 {
+			return fmt.Sprintf("(Some (EScript %d))", n-2)
+		}
+		return "None"
+	}
+	cerr := cerrOf(in.CErr)
+	if in.B != nil {
+		ops2 := coqList(ops, func(o c17Op) string { return "(" + coqBool(o.R == 1) + ", " + opT(o) + ")" })
+		return fmt.Sprintf("CPair (mkCfg %s %s %s %s) %s (mkCfg %s %s %s %s) %s %s %s %s %s",
+			coqZ(in.CL), coqBool(in.Hdr != ""), coqBool(in.Nil), cerr, steps,
+			coqZ(in.B.CL), coqBool(in.B.Hdr != ""), coqBool(in.B.Nil), cerrOf(in.B.CErr), stepsOf(in.B.Steps),
+			ops2, outsT, c17CoqNat(obs.Closes), c17CoqNat(obs.ClosesB))
 	}
 	return fmt.Sprintf("CHist %s %s %s %s %s %s %s %s", coqZ(in.CL), coqBool(in.Hdr != ""), coqBool(in.Nil), cerr,
 		steps, opsT, outsT, c17CoqNat(obs.Closes))
@@ -490,6 +871,9 @@ func (c17) Classify(inAny any, obsAny any) []string { return nil }
 
 func (c17) Category(inAny any, obsAny any) (string, bool) {
 	in, obs := inAny.(c17In), obsAny.(c17Obs)
+	if in.B != nil {
+		return c17PairCategory(in, obs)
+	}
 	probing := in.CL <= 0 && in.Hdr == ""
 	length := "absent"
 	switch {
@@ -585,4 +969,52 @@ func (c17) Category(inAny any, obsAny any) (string, bool) {
 	}
 	cat := fmt.Sprintf("len=%s/body%s/%s/term=%s/%s", length, sz, shape, term, hs)
 	return cat, probing && probes > 0 && (readsAfter > 0 || closes > 0)
+}
+
+// c17PairCategory: which of the cross-request situations the history contains.
+func c17PairCategory(in c17In, obs c17Obs) (string, bool) {
+	probingOf := func(cl int64, hdr Bs, isNil bool) bool { return cl <= 0 && hdr == "" && !isNil }
+	probing := []bool{probingOf(in.CL, in.Hdr, in.Nil), probingOf(in.B.CL, in.B.Hdr, in.B.Nil)}
+	var probed, closed [2]bool
+	late, lateKind, nontrivial := false, "", false
+	for i, op := range in.Ops {
+		if i >= len(obs.Outs) {
+			break
+		}
+		r := op.R & 1
+		other := 1 - r
+		switch op.K {
+		case "has":
+			if probing[r] {
+				probed[r] = true
+			}
+		case "read", "close":
+			if probed[r] {
+				nontrivial = true
+			}
+			// a call through a body that was closed before the other request was probed
+			if closed[r] && probed[other] && !late {
+				late, lateKind = true, op.K
+			}
+			if op.K == "close" && probed[r] {
+				closed[r] = true
+			}
+		}
+	}
+	p := 0
+	for _, b := range probing {
+		if b {
+			p++
+		}
+	}
+	cat := fmt.Sprintf("pair/probing-requests=%d/", p)
+	if late {
+		cat += "late-" + lateKind + "-through-closed-body-after-other-probe"
+	} else {
+		cat += "no-late-call"
+	}
+	if len(obs.Outs) > 0 && obs.Outs[len(obs.Outs)-1].K == "panic" {
+		cat += "/panic"
+	}
+	return cat, nontrivial
 }
